@@ -234,3 +234,25 @@ def run_lexer_streams(chk, tier, formulas):
         chk.seen(('get', cls, t))
         cases.append(('lt %s %s' % (cls, S(t)), out, {'class': cls, 'text': t}))
     chk.judge('lexer-class-get', cases, sample_cap=4)
+
+
+def run_ref_scanners(chk, tier):
+    """C02: the three reference token classes, one at a time, on spellings and near misses: <class>.get vs the Lean scanners"""
+    rng = chk.rng
+    alphabet_law(chk)
+    cases, seen = [], set()
+    m = 1500 if tier == 'quick' else 30000
+    while len(cases) < m:
+        cls = rng.choice(REF_CLASSES)
+        t = near_ref(rng) if rng.random() < 0.7 else ref_text(rng) + rng.choice(TAILS)
+        if (cls, t) in seen or not all(c in ALPHABET for c in t):
+            continue
+        seen.add((cls, t))
+        out = real_get(cls, t)
+        if out is None:
+            chk.count('get:raised')
+            continue
+        chk.count('get:%s:%s' % (cls, 'none' if out == 'NONE' else 'match'))
+        chk.seen(('get', cls, t))
+        cases.append(('lt %s %s' % (cls, S(t)), out, {'class': cls, 'text': t}))
+    chk.judge('reference-scanners', cases, sample_cap=4)
